@@ -254,6 +254,9 @@ pub struct FakeTower {
     stop: Arc<AtomicBool>,
     in_flight: Arc<AtomicU64>,
     pub max_in_flight: Arc<AtomicU64>,
+    /// requests read off the wire so far (counted on arrival; `served` is appended to only after the reply has gone out,
+    /// by which time the client may long have acted on it)
+    arrived: Arc<AtomicU64>,
 }
 
 fn read_http_request(s: &mut TcpStream) -> Option<(String, String, Vec<u8>)> {
@@ -313,7 +316,8 @@ impl FakeTower {
         let stop = Arc::new(AtomicBool::new(false));
         let in_flight = Arc::new(AtomicU64::new(0));
         let max_in_flight = Arc::new(AtomicU64::new(0));
-        let t = FakeTower { port, sk, id, state: state.clone(), stop: stop.clone(), in_flight: in_flight.clone(), max_in_flight: max_in_flight.clone() };
+        let arrived = Arc::new(AtomicU64::new(0));
+        let t = FakeTower { port, sk, id, state: state.clone(), stop: stop.clone(), in_flight: in_flight.clone(), max_in_flight: max_in_flight.clone(), arrived: arrived.clone() };
         let addr: SocketAddr = format!("127.0.0.1:{port}").parse().unwrap();
         std::thread::spawn(move || {
             let mut listener: Option<TcpListener> = None;
@@ -344,12 +348,14 @@ impl FakeTower {
                         let state = state.clone();
                         let in_flight = in_flight.clone();
                         let max_in_flight = max_in_flight.clone();
+                        let arrived = arrived.clone();
                         std::thread::spawn(move || {
                             let _ = s.set_nonblocking(false);
                             let at = Instant::now();
                             let n = in_flight.fetch_add(1, Ordering::SeqCst) + 1;
                             max_in_flight.fetch_max(n, Ordering::SeqCst);
                             if let Some((_method, path, body)) = read_http_request(&mut s) {
+                                arrived.fetch_add(1, Ordering::SeqCst);
                                 let bodyv: Value = serde_json::from_slice(&body).unwrap_or(Value::Null);
                                 let b = {
                                     let mut st = state.lock().unwrap();
@@ -377,6 +383,10 @@ impl FakeTower {
         self.state.lock().unwrap().up = up;
         // give the listener thread time to act
         std::thread::sleep(Duration::from_millis(60));
+    }
+
+    pub fn arrived(&self) -> u64 {
+        self.arrived.load(Ordering::SeqCst)
     }
 
     pub fn in_flight(&self) -> u64 {
